@@ -37,7 +37,7 @@ def script(i, mode, prop, demo=None, k=None, last=False, real=False):
     if k is not None: defs.append("FAIL_AT=%d" % k)
     if last: defs.append("FAIL_LAST")
     return Q("ipc_%s_%s%s%s%s" % (SCRIPTS[i], mode.lower(), "_kfdemo" if demo else "", "_k%d" % k if k is not None else "", "_realkeys" if real else ""),
-             "harness/C20_ipc.c", units=UNITS if real else CORE, models=KM + ([] if real else STUB), defs=defs,
+             "harness/C20_ipc.c", units=UNITS if real else CORE, models=KM + ([] if real else STUB), hdefs=defs,
              includes=["models/redir_ipc.h"], unwind=90 if real else 70, unwindset=UW, timeout=1500, funcs=FUNCS, object_bits=10,
              kf="C20_shm_munmap_clamped" if demo else None,
              bounds={"failing_syscalls": 2 if mode == "SYS" else 0, "alloc_failure_index": ("%s, once or from-k-on" % k) if mode == "ALLOC" else "none",
